@@ -304,6 +304,12 @@ func c23InsideMem(name, root string) bool {
 	return c == root || strings.HasPrefix(c, root+"/")
 }
 
+func c23Call(h RequestHandler, ctx *RequestCtx) (pv any) {
+	defer func() { pv = recover() }()
+	h(ctx)
+	return nil
+}
+
 type c23NullLogger struct{}
 
 func (c23NullLogger) Printf(string, ...any) {}
@@ -364,7 +370,11 @@ func TestVerifC23FSPath(t *testing.T) {
 					}
 					ctx.Init(&req, nil, c23NullLogger{})
 					e.opened, e.created, e.memLog = e.opened[:0], e.created[:0], e.memLog[:0]
-					h(&ctx)
+					if pv := c23Call(h, &ctx); pv != nil {
+						// neither served nor rejected: the reference allows no third outcome
+						viol("panic", mode, compress, c, in, fmt.Sprintf("target %q rewritten to %q: the handler panicked: %v", in, p, pv), vfRec{})
+						continue
+					}
 					status := ctx.Response.StatusCode()
 					body := ctx.Response.Body() // reads and closes the body stream
 					if len(ctx.Response.Header.ContentEncoding()) > 0 {
